@@ -84,10 +84,15 @@ jobs:
       matrix:
         os: [a, b]
         pair: [[1, 2], [3, [4, 5]], {k: [6, 7]}]
+        trio: [[1, 2, 3], [1], []]
         include:
           - os: c
         exclude:
           - os: a
+          - trio: [1, 2]
+          - trio: [1, 2, 3, 4]
+          - pair: [3]
+          - pair: {k: [6]}
     container:
       image: node:18
       credentials:
